@@ -135,6 +135,18 @@ func c07Lunar(w *W, y int) {
 				}
 			}
 			w.Eval(2)
+			// stepping out of the end of a month (and back into it from the start): the object reached is a lunar date that exists
+			if want && pv == nil && (d >= dc-2 || d <= 2) {
+				for _, n := range []int{1, 2, 3, -1, -2, -3, 29 - d, 30 - d} {
+					var ln *calendar.Lunar
+					if pn := Call(func() { ln = l.Next(n) }); pn != nil {
+						w.Violatef("prog-panic", fmt.Sprintf("%s/next%+d", key, n), "NewLunar(%d,%d,%d,..).Next(%d) panicked: %v", y, m, d, n, pn)
+					} else {
+						c07CheckLunar(w, ln, fmt.Sprintf("NewLunar(%d,%d,%d,..).Next(%d)", y, m, d, n))
+					}
+					w.Eval(1)
+				}
+			}
 			// hour object, Taoist and Buddhist constructors on a thinned grid (all rejects near the edges, every 3rd accept)
 			edge := d <= 1 || d >= 29 || !ok
 			if edge || (m+d)%3 == 0 {
@@ -200,6 +212,9 @@ func c07FromDate(w *W) {
 	l := calendar.NewLunarFromDate(tm)
 	if stampOf(s) != st || stampOf(l.GetSolar()) != st {
 		w.Violatef("from-date", key, "NewSolarFromDate(%s) = %s, NewLunarFromDate(...).GetSolar() = %s", key, s.ToYmdHms(), l.GetSolar().ToYmdHms())
+	}
+	if a, b := digest1(s), digest1(solarOf(st)); a != b {
+		w.Violatef("from-date", key+"/solar-digest", "NewSolarFromDate(%s in %s) differs from NewSolar of the same fields: %s", key, loc, diffDigests(b, a))
 	}
 	want := solarOf(st).GetLunar()
 	if a, b := digest1(l), digest1(want); a != b {
